@@ -71,6 +71,9 @@ static void gen_crystal(xv_rng *r, m_crystal *c, const char *forced_name) {
     int o = snprintf(c->name, sizeof c->name, "%s", stem[xv_below(r, 7)]); n = 1 + xv_below(r, 4);
     for (k = 0; k < n && o < 18; k++) c->name[o++] = xv_below(r, 2) ? (char)hi[xv_below(r, 8)] : al[xv_below(r, 63)];
     c->name[o] = 0; }
+  else if (xv_below(r, 12) == 0) {  /* names a user may really give that happen to hold '%' and a conversion letter: they are data wherever the library puts them into a message */
+    static const char *pc[] = { "Steel-2%strained", "LiF%20sheet", "Si-0.1%doped", "Ge%n", "a%%b", "Cu%5$s", "Fe50%Ni50", "%s", "q%x%x%x%x", "In%ld" };
+    int o = snprintf(c->name, sizeof c->name, "%s", pc[xv_below(r, 10)]); if (xv_below(r, 2) && o < 18) { c->name[o++] = al[xv_below(r, 63)]; c->name[o] = 0; } }
   else { n = 1 + xv_below(r, 14); for (k = 0; k < n; k++) c->name[k] = al[xv_below(r, k ? 63 : 52)]; c->name[n] = 0; }
   for (;;) {
     double v;
